@@ -5,21 +5,21 @@ import json, subprocess
 BUILT = [f"C{i:02d}" for i in range(1, 20)]
 
 CHECKS = {
- "C01": ("E2", "exhaustive enumeration of expression DAGs (all programs up to a node bound over four op alphabets) x tracking masks x roots x seeds, plus one-deviation variants (an operand through an untracked clone, every ordered pair of passes) and fixed large structures, each executed on the real library; forward-mode reference oracle", "4.C01",
+ "C01": ("E2", "exhaustive enumeration of expression DAGs (all programs up to a node bound over four op alphabets) x tracking masks x roots x seeds, plus one-deviation variants (an operand through an untracked clone, every ordered pair of passes) fixed large structures, and programs whose user derivative starts a nested pass, each executed on the real library; forward-mode reference oracle", "4.C01",
          "Every program of the stated spaces is built and differentiated by the real library and every leaf and intermediate gradient is compared with an independent forward-mode evaluation; no graph of those spaces drops or double-counts a path."),
- "C02": ("E1", "exhaustive enumeration of single-operation programs (op x parameterisation x operand shapes x tracked subsets x seeds, full Jacobian in the thorough tier) on the real library; forward-mode Jacobian oracle", "4.C02",
+ "C02": ("E1", "exhaustive enumeration of single-operation programs (op x parameterisation x operand shapes x tracked subsets x seeds, full Jacobian in the thorough tier; tiny, huge and row-shifted valuations where derivatives sit at the edge of the number range) on the real library; forward-mode Jacobian oracle", "4.C02",
          "Every operation instance of the stated space has its transpose-Jacobian compared entry by entry (thorough) or under two non-uniform seeds (quick) with the reference."),
- "C03": ("E1/E2", "exhaustive enumeration of broadcast shape pairs x ops x operand position x number of uses x own-shape use x passes, reshape views and large operands, on the real library; gradient dimensions and summed adjoint against the reference", "4.C03",
+ "C03": ("E1/E2", "exhaustive enumeration of broadcast shape pairs x ops x operand position x number of uses x own-shape use x passes, reshape views, large operands, infinite and overflowing adjoints, on the real library; gradient dimensions and summed adjoint against the reference", "4.C03",
          "For every broadcast pattern of the stated space the stored gradient has exactly the array's dimensions and equals the summed adjoint, for the first and every later contribution."),
- "C04": ("E1", "exhaustive enumeration of all ordered shape pairs of rank<=4 (sizes<=3 quick, <=5 thorough, plus long shapes) x element-wise ops x four valuations on the real library against an index-definition reference (value or mandatory refusal)", "4.C04",
+ "C04": ("E1", "exhaustive enumeration of all ordered shape pairs of rank<=4 (sizes<=3 quick, <=5 thorough, plus long shapes) x element-wise ops (axpy with dyadic, non-dyadic and extreme scalars) x valuations (generic, constant, zero, tiny, subnormal divisors) on the real library against an index-definition reference (value or mandatory refusal)", "4.C04",
          "All shape pairs of the stated space are decided: admissible pairs give the broadcast result element by element, all others panic."),
- "C05": ("E1", "exhaustive enumeration of matmul configurations (sizes x four transposes x all pairs of leading patterns x additive-term forms x rank-1 forms x mismatches, plus long inner dimensions) on the real library against the definition", "4.C05",
+ "C05": ("E1", "exhaustive enumeration of matmul configurations (sizes x four transposes x all pairs of leading patterns x additive-term forms x rank-1 forms x mismatches, plus long inner dimensions and overflowing products / sums) on the real library against the definition", "4.C05",
          "Every configuration of the stated space is compared with the batched transposed product or must be refused."),
- "C06": ("E1", "exhaustive enumeration of convolution geometries (image, depth, filter count and size, both strides, batch forms, plus large geometries) on the real library against the sliding-window definition", "4.C06",
+ "C06": ("E1", "exhaustive enumeration of convolution geometries (image, depth, filter count and size, both strides, batch forms, every (length, filter, stride) along one axis up to 40/64, large geometries, overflowing windows) on the real library against the sliding-window definition", "4.C06",
          "Every geometry of the stated space is compared element by element with the direct quadruple loop."),
- "C07": ("E1", "exhaustive enumeration of shapes x sum(k) / reshape targets / point-wise maps with signed, zero, tiny, saturating and row-shifted valuations on the real library against the definitions", "4.C07",
+ "C07": ("E1", "exhaustive enumeration of shapes x sum(k) / reshape targets / point-wise maps with signed, zero, tiny, saturating, overflowing and row-shifted valuations, and powf with extreme exponents, on the real library against the definitions", "4.C07",
          "Every shape of the stated space and every parameterisation is compared with the definition, including refusals of reshape."),
- "C08": ("E3", "explicit-state BFS (stateright) over a handle-pool machine (build incl. views and re-binding / clone / drop / flag / backward incl. caller-held seeds / clear / fetch / adopt / optimizer update); every transition replays the history on the real library; bitwise snapshot invariant in every state", "4.C08",
+ "C08": ("E3", "explicit-state BFS (stateright) over a handle-pool machine (build incl. views and re-binding / clone / drop / flag / backward incl. caller-held seeds / clear / fetch / adopt / optimizer update); every transition replays the history on the real library; bitwise snapshot invariant in every state; plus exhaustive sweeps of Model::update over user-defined layers with unused parameters and of updates with hand-written reshaped gradients", "4.C08",
          "In every reachable state of the bounded machines every pre-existing handle shows bit-identical dimensions and values after each action."),
  "C09": ("E1+E3", "exhaustive op-instance x operand-mask sweep plus explicit-state BFS over build / flag / clone / backward / fetch / adopt histories executed on the real library against a tracking-semantics reference", "4.C09",
          "The iff rule holds for every op instance and mask of the sweep; in every reachable state of the machines flags, gradient presence and values match the tracking semantics."),
@@ -27,9 +27,9 @@ CHECKS = {
          "In every reachable state of the bounded machines every gradient equals the sum of the single-pass adjoints since its last clear, and every pass adds what it deposits on a fresh copy of the graph."),
  "C11": ("E2+E3", "exhaustive enumeration of user-op DAGs x masks x roots x handle deviations (re-binding through .tracked(), dropped handles), self-product chains, and a BFS machine with pause/resume actions; invocation-log oracle", "4.C11",
          "In every pass of the stated spaces each user closure of the differentiated graph is invoked exactly once, after its consumers, with the complete adjoint."),
- "C12": ("E2/E3", "exhaustive enumeration of base programs x single and paired handle perturbations (clone / drop / re-bind / flag round trips / aliases / seed handles) on the real library; implementation-vs-implementation bitwise oracle", "4.C12",
+ "C12": ("E2/E3", "exhaustive enumeration of base programs x single and paired handle perturbations (clone / drop before and after the pass / re-bind / flag round trips / aliases / seed handles / hand-installed gradients) over three op alphabets on the real library; implementation-vs-implementation bitwise oracle", "4.C12",
          "Every perturbed run of the stated space yields bit-identical values and gradients through every surviving alias."),
- "C13": ("E1", "exhaustive enumeration of parameter lists x gradient subsets x learning rates x two rounds x two gradient sources, plus long lists and large parameters, on the real optimizer; per-element step oracle", "4.C13",
+ "C13": ("E1", "exhaustive enumeration of parameter lists x gradient subsets x learning rates x two rounds x three gradient sources, long lists, large parameters, extreme rates, and every Model::update call sequence up to a length, on the real optimizer; per-element step oracle", "4.C13",
          "Every update of the stated space is one step per parameter with its own gradient; frozen parameters are bitwise untouched."),
  "C14": ("E3", "breadth-first exploration of training histories (models x batch sequences x one irregular iteration) executed on one real Model; reference step recomputed from the parameters observed after the prefix history", "4.C14",
          "For every model and history of the stated space the returned loss and every parameter step equal the reference computed from the observed parameters."),
@@ -37,7 +37,7 @@ CHECKS = {
          "Every configuration of the stated space is compared with the documented formula evaluated on the parameters read from the layer."),
  "C16": ("E1", "exhaustive enumeration of shapes x constructors x refusals x every index x equality variants on the real library against the row-major definition", "4.C16",
          "Every shape of the stated space: layout, refusals, every in-range index and the equality relation are decided."),
- "C17": ("E2", "exhaustive enumeration of programs x masks x roots x seed pairs x coefficient pairs on the real library; metamorphic linearity oracle with reference error bounds; omitted seed vs ones bitwise", "4.C17",
+ "C17": ("E2", "exhaustive enumeration of programs x masks x roots x seed pairs x coefficient pairs on the real library; metamorphic linearity oracle with reference error bounds; omitted seed vs ones and reused instance vs fresh instances bitwise", "4.C17",
          "For every program of the stated spaces gradients are linear in the seed and an omitted seed equals ones."),
  "C18": ("E3", "explicit-state BFS over build / pass / clear / drop / clone / fetch / update histories plus all forward/backward/update step sequences of three models on the real library; sole-ownership probe in every state", "4.C18",
          "In every reachable state every leaf that the reference says nothing alive derives from converts into a Vec (sole owner)."),
